@@ -184,6 +184,7 @@ def judge_seq(case, obs, model_lines=None, hit=None):
     `model_lines`, when given, receives (step index, model request line, observed value) for every judged step."""
     ref = Ref()
     objs = {}
+    kept, edited = {}, set()   # results the caller still holds: id -> (frame, request); those it has edited in place
 
     def step_data(st):
         """The dictionary a step hands over: a new one, or the object an earlier step used, edited (use -> mutate -> use)."""
@@ -271,7 +272,17 @@ def judge_seq(case, obs, model_lines=None, hit=None):
                 lim = _lim(st["limit"]) if ("limit" in st and st.get("via") != "getitem") else None
                 model_lines.append((i, "C10 pcollect " + wire.line(fr["names"], [[True, r] for r in fr["rows"]], st["cols"], st.get("ckind", "list") == "single", lim), ob))
             hit("site:judged:collect:" + want[0])
+            if "keep" in st and "ok" in ob:
+                kept[st["keep"]] = (st.get("frame"), json.dumps([st["cols"], st.get("ckind", "list"), st.get("limit", "absent"), st.get("via")], sort_keys=True, default=repr))
+            if ob.get("shares"):
+                # observation only: the property speaks about the values of each result, not about the identity of the arrays
+                hit("site:observed:result-shares-storage-with-an-earlier-result")
+            again = [k for k, (f_, req, edited_) in ((k, v + (k in edited,)) for k, v in kept.items()) if f_ == st.get("frame") and edited_ and k != st.get("keep")]
+            if again:
+                hit("site:judged:collect:after-the-caller-edited-an-earlier-result-of-this-frame")
             cl_ = judge_collect(want, ob)
+            if cl_ and again and "ok" in ob and want[0] in ("ok", "ok-or-raises") and ob.get("shares"):
+                cl_ += "; the result is the array an earlier call handed out, which the caller has edited since"
             if cl_:
                 return (i, cl_, want)
         elif op == "derive":
@@ -335,6 +346,11 @@ def judge_seq(case, obs, model_lines=None, hit=None):
                 model_lines.append((i, "C10 dwidths " + wire.line(fr["names"], lens, limit), {"widths": got, "names": fr["names"], "mcw": mcw, "tws": tws}))
             if got != want:
                 return (i, "display width is not the longest rendered non-null value (floor 4) of the printed rows", want)
+        elif op == "edit":
+            if "raises" in ob:
+                raise InfraError("an edit of a result the caller holds raised %r: %r" % (ob, st))
+            edited.add(st["result"])   # an edit numpy refused half-way may have changed part of the array
+            hit("site:edit:%s:%s:%s" % (st["how"], st.get("on", "whole"), ob.get("ok")))
         elif op == "bytes":
             if st.get("mangle"):
                 continue  # malformed bytes: anything but the death of the interpreter is acceptable here
@@ -931,6 +947,157 @@ def seeded_corpus():
             {"op": "display", "frame": "fS", "via": "str", "limit": 10},
         ]},
     ]
+
+
+# ----------------------------------------------------------------------------- results handed out, edited, asked for again
+
+EDIT_VALUES = [None, -99, "edited", 0.5, 0, ""]
+
+
+def _edit_step(rng, rid, many):
+    how = rng.choice(["fill", "fill", "slice-assign", "item", "item", "reverse", "sort", "iadd", "upper"])
+    st = {"op": "edit", "result": rid, "how": how}
+    if many and rng.random() < 0.5:
+        st["on"], st["k"] = "part", rng.randrange(4)   # one column of a many-column result: a view of the array
+    if how in ("fill", "slice-assign", "item"):
+        st["value"] = rng.choice(EDIT_VALUES)
+    if how == "item":
+        st["pos"] = rng.randrange(12)
+    if how == "iadd":
+        st["value"] = rng.choice([10, 1.5, "!"])
+    return st
+
+
+def _respell(rng, st, names, n):
+    """The same request written another way: a position by its name (when the name is unique) or the other way round, the
+    limit as absent / None / -1 / the row count / beyond it when it means "all rows", list / tuple, `frame[...]`."""
+    st = json.loads(json.dumps(st))
+    st.pop("keep", None)
+    cols = []
+    for x in st["cols"]:
+        if rng.random() < 0.5:
+            if isinstance(x, int) and 0 <= x < len(names) and names.count(names[x]) == 1 and not names[x].lstrip("-").isdigit():
+                x = names[x]
+            elif isinstance(x, str) and x in names:
+                x = names.index(x)
+        cols.append(x)
+    st["cols"] = cols
+    if st.get("ckind", "list") in ("list", "tuple"):
+        st["ckind"] = rng.choice(["list", "tuple"])
+    lim = st.get("limit", "none") if st.get("via") != "getitem" else "none"
+    all_rows = lim == "none" or (isinstance(lim, int) and (lim < 0 or lim >= n))
+    if all_rows:
+        st.pop("limit", None)
+        st.pop("via", None)
+        pick = rng.choice(["absent", "none", -1, -2, n, n + 1, n + 7, "getitem"])
+        if pick == "getitem":
+            st["via"] = "getitem"
+        elif pick != "absent":
+            st["limit"] = pick
+    return st
+
+
+def reuse_seq(rng, tag):
+    """One session about *results*: a public call hands out an array, the caller edits that array in place (it is the
+    caller's), the same request -- spelt the same way or another -- is made again; now and then a row is appended, the
+    frame is displayed, a second frame with the same content is asked, in between.  Every collect is judged by the
+    definition on the frame's rows; the edits never touch the frame."""
+    t = "u%s" % tag
+    width = rng.choice([1, 2, 2, 3, 4])
+    names = ["%s_%s" % (t, x) for x in rng.sample(["a", "b", "c", "d", "é"], width)]
+    if width >= 2 and rng.random() < 0.15:
+        names[-1] = names[0]
+    n = rng.choice([1, 1, 2, 3, 3, 5, 0])
+    pool = rng.choice([VALS, [1, 2, 3, 40, -5], ["a", "b", "cc", "é"], [1.5, None, "s", 7]])
+    rows = [[rng.choice(pool) for _ in names] for _ in range(n)]
+    f = "f%s" % t
+    steps = [{"op": "frame", "id": f, "names": list(names), "rows": rows, "lazy": rng.random() < 0.25}]
+    frames = [f]
+    if rng.random() < 0.2:
+        steps.append({"op": "frame", "id": f + "_twin", "names": list(names), "rows": [list(r) for r in rows], "lazy": False})
+        frames.append(f + "_twin")
+    k = rng.choice([1, 1, 2, 2, 3])
+    base = {"op": "collect", "frame": f, "cols": [rng.choice(names) if rng.random() < 0.4 else rng.randrange(width) for _ in range(k)],
+            "ckind": rng.choice(["single", "list"]) if k == 1 else rng.choice(["list", "tuple"])}
+    r = rng.random()
+    if r < 0.35:
+        base["limit"] = rng.choice([0, 1, max(n - 1, 0), n, n + 1, -1, "none"])
+    elif r < 0.5:
+        base["via"] = "getitem"
+    rid = 0
+    for _ in range(rng.choice([2, 2, 3, 4])):
+        rid += 1
+        st = dict(base if rng.random() < 0.5 else _respell(rng, base, names, n), keep="r%d" % rid)
+        if len(frames) > 1 and rng.random() < 0.3:
+            st["frame"] = rng.choice(frames)
+        steps.append(st)
+        if rng.random() < 0.9:
+            steps.append(_edit_step(rng, "r%d" % rid, many=st.get("ckind") != "single"))
+            if rng.random() < 0.2:
+                steps.append(_edit_step(rng, "r%d" % rng.randint(1, rid), many=True))
+        x = rng.random()
+        if x < 0.15 and (not steps[0]["lazy"] or any(s_["op"] == "collect" and s_["frame"] == f for s_ in steps)):
+            # (a frame still backed by a generator is materialised by its first collect; appending before that is not C10's)
+            steps.append({"op": "append", "frame": f, "tuple": [rng.choice(pool) for _ in names]})
+            n += 1
+        elif x < 0.3:
+            steps.append({"op": "display", "frame": f, "limit": rng.choice([0, 2, 10]), "tt": True, "via": rng.choice(["ascii", "display", "markdown"])})
+        elif x < 0.4:
+            g = "%s_d%d" % (f, rid)
+            steps.append({"op": "derive", "id": g, "frame": f, "how": "head", "k": rng.choice([n, n + 1, 1])})
+            steps.append(dict(_respell(rng, base, names, n), frame=g))
+    steps.append(dict(base if rng.random() < 0.6 else _respell(rng, base, names, n)))
+    return {"fn": "seq", "kind": "reuse", "steps": steps}
+
+
+def exhaustive_reuse():
+    """Every request shape x every kind of edit on one small frame: call, edit the result in place, call again."""
+    out = []
+    names = ["x", "y", "z"]
+    rows = [[1, "a", 1.5], [2, "b", 2.5], [3, "c", 3.5]]
+    requests = [{"cols": [1], "ckind": "single"}, {"cols": ["x"], "ckind": "single", "limit": 2}, {"cols": [0], "ckind": "list"},
+                {"cols": [2, 0], "ckind": "list"}, {"cols": ["x", "z"], "ckind": "tuple", "limit": 2}, {"cols": [2, 0, 1], "ckind": "list"},
+                {"cols": [0], "ckind": "single", "via": "getitem"}, {"cols": ["z", "y"], "ckind": "list", "via": "getitem"},
+                {"cols": [0, 0], "ckind": "list", "limit": -1}, {"cols": [1, 2], "ckind": "list", "limit": 0}]
+    edits = [{"how": "fill", "value": None}, {"how": "slice-assign", "value": -99}, {"how": "item", "pos": 0, "value": "edited"},
+             {"how": "item", "pos": 4, "value": -99}, {"how": "reverse"}, {"how": "sort"}, {"how": "iadd", "value": 10}, {"how": "upper"},
+             {"how": "fill", "value": 0, "on": "part", "k": 1}, {"how": "sort", "on": "part", "k": 0}, {"how": "iadd", "value": "!", "on": "part", "k": 1}]
+    for lazy in (False, True):
+        for rq in requests:
+            for ed in edits:
+                c1 = dict({"op": "collect", "frame": "fU"}, **rq)
+                out.append({"fn": "seq", "kind": "reuse-exhaustive", "steps": [
+                    {"op": "frame", "id": "fU", "names": names, "rows": rows, "lazy": lazy},
+                    dict(c1, keep="r1"), dict({"op": "edit", "result": "r1"}, **ed),
+                    dict(c1, keep="r2"), dict({"op": "edit", "result": "r2"}, **ed),
+                    dict(c1),
+                    {"op": "display", "frame": "fU", "limit": 10, "tt": True, "via": "ascii"},
+                    {"op": "append", "frame": "fU", "tuple": [4, "d", 4.5]},
+                    dict(c1, keep="r3"), dict({"op": "edit", "result": "r3"}, **ed), dict(c1)]})
+    return out
+
+
+def valid_seq(case):
+    """A session the reference state can follow: no append to a frame that is still backed by a generator (what a lazy
+    frame does with an appended row is not this property's; the judge skips such steps and would lose track of the rows)."""
+    lazy = {}
+    for st in case["steps"]:
+        op = st["op"]
+        if op == "frame":
+            lazy[st["id"]] = bool(st.get("lazy"))
+        elif op == "arrow":
+            lazy[st["id"]] = True
+        elif op == "dicts":
+            lazy[st["id"]] = False
+        elif op == "derive":
+            lazy[st["id"]] = st["how"] == "select"
+            if st["how"] != "select":
+                lazy[st.get("frame")] = False
+        elif op == "collect" or (op == "display" and st.get("via") == "markdown"):
+            lazy[st.get("frame")] = False
+        elif op == "append" and lazy.get(st.get("frame"), False):
+            return False
+    return True
 
 
 def describe(c):
